@@ -63,6 +63,10 @@ type ReqIO struct {
 	writes      int
 	readN       int // bytes the server took from the body
 
+	// state at the moment of the abort (for the cancellation oracle)
+	inPendingAt    int
+	writeStalledAt bool
+
 	// knobs
 	zeroReads bool
 	eofData   bool
@@ -380,6 +384,11 @@ func (q *ReqIO) clientBreakRead(err error) {
 // pending and later reads fail, writes fail.
 func (q *ReqIO) clientAbort() {
 	q.mu.Lock()
+	q.inPendingAt = len(q.in)
+	if q.inEOF || q.inErr != nil {
+		q.inPendingAt = -1 // the read would have returned anyway
+	}
+	q.writeStalledAt = q.window > 0 && len(q.out)-q.consumed >= q.window
 	q.aborted = true
 	q.sync()
 	q.mu.Unlock()
